@@ -58,7 +58,7 @@ prop("C04",
      note="Assumes the tape view contracts (checked, bounded, in unit u2_tape), the Context::input/output oracle contracts (u2_tape) and the CellType ring contracts (proved in u1_cell; copied verbatim). Trusted: the canonical semantics in the unit template, vstd's str::as_bytes spec, Verus+Z3. Termination of the unlimited instance rests on the lock-step argument (not machine-checked).")
 
 prop("C07",
-     units=[("verus", "u7_inplace", r"#limited"), ("kani", "u5_bcint_ops", None)],
+     units=[("verus", "u7_inplace", r"#limited"), ("kani", "u5_bcint_ops", None), ("kani", "u6_jit", None)],
      level="model_checking",
      technique="Verus deductive proof of the LIMITED=true monomorphisation of the real in-place interpreter (simulation invariant + termination measure); Kani contract harnesses for the bytecode interpreter's limit op",
      design_ref="DESIGN.md section 4-U7, 5-C07",
@@ -90,7 +90,7 @@ prop("C06",
      note="Relative to C11 (operands inside the declared window, temp index < temps: not discharged). NOT decided: checked LEFT move/scan that grows below (pointer before the allocation start is not representable in CBMC), the checked scan loop (timeout), the JIT probe sequence unless unit u6 is listed in the evidence.")
 
 prop("C10",
-     units=[("kani", "u5_bcint_ops", None)],
+     units=[("kani", "u5_bcint_ops", None), ("kani", "u6_jit", None)],
      level="model_checking",
      technique="Kani contract harnesses on the SAFE=false instantiations of the real move/scan ops: same post-state as the checked ops and no access outside the allocation when the destination window lies inside it",
      design_ref="DESIGN.md section 4-U5, 5-C10",
@@ -104,3 +104,11 @@ prop("C15",
      design_ref="DESIGN.md section 4-U4, 5-C15",
      text="Proved fragment: val, var, add (sum), evaluate (evaluation), constant, const_inc_of, identity, constant_part (decompositions) agree with eval(e, rho) = sum coef*prod rho(var) mod 2^bits for every assignment rho and every width. Unbounded.",
      note="NOT decided (a defect there is not detected): mul, mul_parts, neg, half, normalize, symb_evaluate, inc_of, prod_inc_of, prod_of, split_along, codegen -- closures with captured mutation, iterator adapters and HashMap code that Verus rejects and Kani does not finish. SmallVec is replaced by a Verus-checked Vec wrapper in the verification file (that it refines Vec is C18); slice Ord is assumed to satisfy Equal => equal sequences.")
+
+prop("C03",
+     units=[("kani", "u6_jit", None)],
+     level="model_checking",
+     technique="per-instruction contract of the real JIT selector/encoder: the bytes the real emit_program produces for a concrete bytecode instruction are run under an x86-64 subset semantics by Kani over ALL machine states and compared with the bytecode step semantics; operands enumerated",
+     design_ref="DESIGN.md section 4-U6, 5-C03",
+     text="Selector/encoder layer: for every enumerated instruction instance (every arm of the selector's match x register class incl. stack temporaries x immediate class incl. 64-bit immediates x displacement class x live mask x width) the emitted machine code computes the bytecode step for all register/stack/tape/context contents, preserves live temporaries and touches no byte outside the destination; branches, the budget check and the unchecked move likewise.",
+     note="Trusted: the x86-64 subset semantics (decoder run natively, executor in Kani), the register map. Quick tier: the bytes come from a native run of the real emitter; thorough tier additionally proves in Kani that emit_program emits exactly them. NOT decided: the call-making forms (checked Mov probe, Inp, Out: push/pop symmetry, alignment, runtime shims incl. hpbf_context_input), prologue/epilogue, mmap/transmute, the shared front end (C01, bc.rs).")
